@@ -260,6 +260,34 @@ def li_grid(highs, lows):
         yield {"kind": "li", "consts": consts[i:i + 62], "tape": [i % 7, 1, 0, 2]}
 
 
+def decl_kinds():
+    ks = []
+    for n in (1, 2, 3, 4, 5):
+        ks.append(("byte", [0x80 + i for i in range(n)]))
+    for n in (1, 2, 3):
+        ks.append(("half", [0x8001 + i for i in range(n)]))
+    for n in (1, 2):
+        ks.append(("word", [0x80000001 + i for i in range(n)]))
+    for t in ("", "a", "ab", "abc", "abcd", "abcde", "'q'", " x ", "a,b:c"):
+        ks.append(("string", t))
+    for n in (1, 2):
+        ks.append(("zero", n))
+    return ks
+
+
+def layout_grid(depth):
+    """Deterministic: every ordered pair / triple of declaration kinds (alignment interplay), both segment orders."""
+    ks = decl_kinds()
+    for combo in itertools.product(range(len(ks)), repeat=depth):
+        data = []
+        for j, k in enumerate(combo):
+            ty, payload = ks[k]
+            name = "v%d" % j
+            data.append({"name": name, "type": ty, **({"values": payload} if ty in ("byte", "half", "word") else {"string": payload} if ty == "string" else {"n": payload})})
+        acc = [["la", data[-1]["name"], None, 0]]
+        yield {"kind": "access", "data": data, "acc": acc, "tape": [sum(combo) % 5, 1, 0], "data_first": bool(sum(combo) % 2)}
+
+
 def corpus():
     return [
         {"kind": "example"},
@@ -282,7 +310,11 @@ def shards(tier, seed):
         lows = sorted({(m + d) & 0xFFF for m in (0, 0x800) for d in (-2, -1, 0, 1, 2)} | {0x7FF, 0x801, 0x400, 0xC00, 0xFFF, 1})
         items.append({"what": "grid", "highs": [0, 0x7FFFF, 0x80000, 0xFFFFF], "lows": lows + list(range(0, 4096, 64))})
         items.append({"what": "li", "n": 150, "seed": seed * 1000 + 30})
+        items.append({"what": "layoutgrid", "depth": 2, "part": 0, "parts": 1})
     else:
+        items.append({"what": "layoutgrid", "depth": 2, "part": 0, "parts": 1})
+        for p in range(8):
+            items.append({"what": "layoutgrid", "depth": 3, "part": p, "parts": 8})
         for i in range(8):
             items.append({"what": "layout", "n": 1000, "seed": seed * 1000 + i})
         for i in range(8):
@@ -297,7 +329,10 @@ def shards(tier, seed):
 def run_shard(item, stats):
     km = core.known_matcher(ID, globals().get("known_match"))
     w = item["what"]
-    if w == "layout":
+    if w == "layoutgrid":
+        core.run_cases((c for i, c in enumerate(layout_grid(item["depth"])) if i % item["parts"] == item["part"]), check, stats, km)
+        stats.exhaustive_parts.append(f"all ordered {item['depth']}-tuples over 21 declaration kinds (alignment interplay)")
+    elif w == "layout":
         core.hyp_search(layout_case(), check, stats, item["n"], item["seed"], km)
     elif w == "access":
         core.hyp_search(access_case(), check, stats, item["n"], item["seed"], km)
